@@ -1288,6 +1288,9 @@ func main() {
 	e := &emitter{cf: cf, side: side, stats: map[string]int{}, seen: map[string]bool{}}
 	nilElemsOK = probeNilElement()
 	structInSliceOK = probeStructInSlice()
+	if os.Getenv("ENCRYPTH_STRUCT_IN_SLICE") == "filters" {
+		structInSliceOK = true // for the record of F19: the full model on a tree that does not filter such elements
+	}
 	r := hc.NewRand(hc.Seed())
 	if *corpus != "" {
 		runCorpus(e, *corpus)
